@@ -2,6 +2,7 @@
 import json
 import random
 
+from harness import ref_text as RT
 from harness import core, gen_db as GD, gen_text as GT, impl_text as IT, speller as SP
 from harness import parse_common as PC
 from harness.driver import Driver, DriverError
@@ -19,7 +20,7 @@ GARBAGE = ['x', '}', ']', ')', '{', 'Table', 'Table t', 'ref', ':', ',', "'unter
 
 def gen_base(seed, varied=True, max_tables=2):
     rng = random.Random(seed)
-    spec = SP.normalise_for_spelling(GD.gen_spec(rng, wild=False, max_tables=max_tables), IT.norm_impl)
+    spec = SP.normalise_for_spelling(GD.gen_spec(rng, wild=False, max_tables=max_tables), RT.ref_norm)
     if not SP.spellable(spec):
         return None
     text, exp, info = SP.spell(spec, rng, {'varied': varied})
